@@ -37,9 +37,9 @@ func c15(r *Report) {
 	r.Own(OwnSpec{ID: "C15.own.read-payload", Op: "call State.ReadPayload", Sites: p.CallSites(p.FnOrImpl(dag, "State", "ReadPayload"), true), Min: 3, Owners: map[string]string{
 		"(*network/transport/v2.protocol).handleTransactionPayloadQuery": "gated by authentication + PAL membership",
 		"(*network/transport/v2.protocol).collectTransactionList":        "public transactions only",
-		"(*network.Network).GetTransactionPayload":                        "internal REST API of the operator",
-		"(*network.Network).Reprocess":                                    "local re-delivery to subscribers",
-		"(*network.Network).Reprocess$1":                                  "local re-delivery to subscribers",
+		"(*network.Network).GetTransactionPayload":                       "internal REST API of the operator",
+		"(*network.Network).Reprocess":                                   "local re-delivery to subscribers",
+		"(*network.Network).Reprocess$1":                                 "local re-delivery to subscribers",
 	}})
 	// (3) storing received payloads
 	hp := p.Func(v2, "protocol", "handleTransactionPayload")
